@@ -6,9 +6,7 @@ CONSTANTS
   TopoIds = {"line3", "line4r", "line2s", "line4m", "rect32", "rect32r", "rect33m"}
   NTargetSets = 2
 INVARIANT ImageOK
-INVARIANT PickedContains
-INVARIANT OutsideRaises
-INVARIANT InsideLocated
+INVARIANT Containment
 INVARIANT MemoSound
 INVARIANT EmitMemoRelevant
 CHECK_DEADLOCK FALSE
